@@ -386,7 +386,7 @@ Section Phases.
     plain o -> nth j (c_disks c) None = Some d -> slot_at d pos = SFile f idx b -> fb_state b = SBlk ->
     j < length (r_fs (da_st a)) ->
     (forall g, fs_find (r_fs (da_st a)) j (cf_name f) = Some g -> (ff_size g <= cf_size f)%N) ->
-    (co_fix o = true \/ fl_missing (get_fl (r_flags (da_st a)) (j, cf_name f)) = false) ->
+    (co_fix o = true \/ fl_missing (get_fl (r_flags (da_st a)) (j, cf_name f)) = false \/ fs_find (r_fs (da_st a)) j (cf_name f) = None) ->
     (0 < block_len bs (cf_size f) idx)%N ->
     exists s' x fe,
       data_step hashf bs newino now o c pos a j = mkDA (da_buf a ++ [x]) (da_failed a ++ fe) (da_valid a) true s'
@@ -397,7 +397,9 @@ Section Phases.
     set (s := da_st a).
     destruct (fs_find (r_fs s) j (cf_name f)) as [g|] eqn:Ef.
     - (* present *)
-      destruct (open_present o pos j f s g Hp Ef (Hsz g Ef) Hm) as [s4 [Eo [Efs Hc]]].
+      assert (Hm' : co_fix o = true \/ fl_missing (get_fl (r_flags s) (j, cf_name f)) = false).
+      { destruct Hm as [Hm|[Hm|Hm]]; [left; exact Hm | right; exact Hm |]. fold s in Hm. rewrite Ef in Hm. discriminate. }
+      destruct (open_present o pos j f s g Hp Ef (Hsz g Ef) Hm') as [s4 [Eo [Efs Hc]]].
       pose proof (open_step_other_flags o pos j f s s4) as Hfl.
       fold s. rewrite Eo. rewrite (read_block_same_fs s s4 j f idx Efs).
       destruct (read_block bs s j f idx) as [y|] eqn:Er.
@@ -457,7 +459,7 @@ Section Phases.
     Hypothesis Hfile : forall j f idx b, slot_of c pos j = SFile f idx b ->
          (0 < block_len bs (cf_size f) idx)%N
          /\ (forall g, fs_find (r_fs s) j (cf_name f) = Some g -> (ff_size g <= cf_size f)%N)
-         /\ (co_fix o = true \/ fl_missing (get_fl (r_flags s) (j, cf_name f)) = false).
+         /\ (co_fix o = true \/ fl_missing (get_fl (r_flags s) (j, cf_name f)) = false \/ fs_find (r_fs s) j (cf_name f) = None).
 
     Definition hash_ok (f : cfile) (idx : nat) (b : fblock) (y : bid) : bool := hval_eqb (hashf y (block_len bs (cf_size f) idx)) (fb_hash b).
     Definition is_bad (j : nat) : bool :=
@@ -547,7 +549,7 @@ Section Phases.
         destruct (data_step_blk o c pos a k d f idx b Hplain Ed Esa Hst) as [s' [x [fe [Eds SO]]]].
         + destruct di_core0 as [_ [_ [_ [_ [L _]]]]]. rewrite L, Hlenfs. exact Hk.
         + intros g Hg. apply Hsz. rewrite <- Efs. exact Hg.
-        + destruct Hm as [Hm|Hm]; [left; exact Hm | right]. rewrite di_flags0 by (cbn; lia). exact Hm.
+        + destruct Hm as [Hm|[Hm|Hm]]; [left; exact Hm | right; left; rewrite di_flags0 by (cbn; lia); exact Hm | right; right; rewrite Efs; exact Hm].
         + exact Hlen.
         + rewrite Eds. destruct SO as [SOc SOo SOf SOr]. rewrite Erd in SOr.
           assert (Hx : x = bufval k /\ fe = fent_of k /\ r_err s' = r_err (da_st a) + length fe /\ r_tags s' = r_tags (da_st a) ++ tag_of k).
@@ -898,7 +900,7 @@ Section Phases.
     Hypothesis Hfile : forall j f idx b, slot_of c pos j = SFile f idx b ->
          (0 < block_len bs (cf_size f) idx)%N
          /\ (forall g, fs_find (r_fs s) j (cf_name f) = Some g -> (ff_size g <= cf_size f)%N)
-         /\ (co_fix o = true \/ fl_missing (get_fl (r_flags s) (j, cf_name f)) = false).
+         /\ (co_fix o = true \/ fl_missing (get_fl (r_flags s) (j, cf_name f)) = false \/ fs_find (r_fs s) j (cf_name f) = None).
     (* nothing is damaged: every block reads and hashes to the recorded hash, every level encodes what was read *)
     Hypothesis Hgood : forall j, is_bad c pos s j = false.
     Hypothesis Hpar : forall l, l < nlev -> par_matches (map (bufval c pos s) (seq 0 (length (c_disks c)))) (prow (r_par s) pos l) = true.
@@ -988,6 +990,160 @@ Section Phases.
     intros j' f idx b Hs. rewrite (po_dam _ _ P). eapply Hd. exact Hs.
   Qed.
 
+
+  (* ---- time-stamps: what file_post does to the file of a slot, exactly (fix) ------------------------------------------- *)
+  Definition restamp (f : cfile) (g : fsfile) : fsfile := mkFF (cf_name f) (ff_size g) (cf_mtime f) (cf_nsec f) (ff_inode g) (ff_blocks g).
+  (* no other file of the disk has the size and the time-stamp of f (else fix does not set the time and reports collision:) *)
+  Definition uniq_stamp (c : content) (j : nat) (f : cfile) : Prop :=
+    forall d h, nth j (c_disks c) None = Some d -> In h (cd_files d) ->
+                cf_size h = cf_size f -> cf_mtime h = cf_mtime f -> cf_nsec h = cf_nsec f -> cf_name h = cf_name f.
+
+  Lemma file_post_fix_shape o c pos s j d f idx b :
+    plain o -> co_fix o = true -> nth j (c_disks c) None = Some d -> slot_at d pos = SFile f idx b ->
+    fl_damaged (get_fl (r_flags s) (j, cf_name f)) = false ->
+    let s' := file_post o c pos s j in
+    (Nat.eqb (S idx) (length (cf_blocks f)) = false -> s' = s)
+    /\ (Nat.eqb (S idx) (length (cf_blocks f)) = true ->
+          r_flags s' = set_fl (r_flags s) (j, cf_name f) (fl_set_finished (get_fl (r_flags s) (j, cf_name f)))
+          /\ (r_fs s' = r_fs s \/ (fl_fixed (get_fl (r_flags s) (j, cf_name f)) = true
+                                  /\ exists g, fs_find (r_fs s) j (cf_name f) = Some g /\ r_fs s' = fs_put (r_fs s) j (restamp f g)))
+          /\ (uniq_stamp c j f -> fl_fixed (get_fl (r_flags s) (j, cf_name f)) = true ->
+              forall g, fs_find (r_fs s) j (cf_name f) = Some g -> r_fs s' = fs_put (r_fs s) j (restamp f g))
+          /\ (fl_fixed (get_fl (r_flags s) (j, cf_name f)) = false -> r_fs s' = r_fs s)).
+  Proof.
+    intros Hp Hfix Hd Hs Hdam. cbn zeta. unfold file_post. rewrite Hd, Hs.
+    destruct (Nat.eqb (S idx) (length (cf_blocks f))) eqn:El; cbn [negb]; split; try (intro X; discriminate X); [|intros _; reflexivity].
+    intros _. rewrite (plain_not_excl o j _ Hp), (pl_synced o Hp), Hfix. cbn [orb andb]. rewrite Hdam.
+    destruct (fl_fixed (get_fl (r_flags s) (j, cf_name f))) eqn:Efx; cbn [negb].
+    - cbv zeta. cbn [r_fs rs_tag rs_flag rs_setfl].
+      destruct (fs_find (r_fs s) j (cf_name f)) as [g|] eqn:Eg.
+      + match goal with |- context [if ?c then _ else _] => destruct c eqn:Est end.
+        * cbn [r_flags r_fs rs_setfs rs_tag rs_flag rs_setfl]. split; [reflexivity|]. split; [right; split; [reflexivity|]; exists g; split; reflexivity|].
+          split; [intros _ _ g' Hg'; injection Hg' as Hg'; subst g'; reflexivity | intro X; discriminate X].
+        * cbn [r_flags r_fs rs_setfs rs_tag rs_flag rs_setfl]. split; [reflexivity|]. split; [left; reflexivity|].
+          split; [|intro X; discriminate X]. intros Hu _ g' Hg'. exfalso.
+          destruct (find (fun h => N.eqb (cf_inode h) (ff_inode g)) (cd_files d)) as [h|] eqn:Ec; [|discriminate Est].
+          apply find_some in Ec. destruct Ec as [Hin _].
+          destruct (N.eqb (cf_size h) (cf_size f)) eqn:E1; [|cbn in Est; rewrite orb_true_r in Est; discriminate Est].
+          destruct (Z.eqb (cf_mtime h) (cf_mtime f)) eqn:E2; [|cbn in Est; rewrite !orb_true_r in Est; discriminate Est].
+          destruct (Z.eqb (cf_nsec h) (cf_nsec f)) eqn:E3; [|cbn in Est; rewrite !orb_true_r in Est; discriminate Est].
+          apply N.eqb_eq in E1. apply Z.eqb_eq in E2. apply Z.eqb_eq in E3.
+          rewrite (Hu d h Hd Hin E1 E2 E3), N.eqb_refl in Est. discriminate Est.
+      + cbn [r_flags r_fs rs_setfs rs_tag rs_flag rs_setfl]. split; [reflexivity|]. split; [left; reflexivity|].
+        split; [intros _ _ g' Hg'; discriminate Hg' | intro X; discriminate X].
+    - cbn [r_flags r_fs rs_flag rs_setfl]. split; [reflexivity|]. split; [left; reflexivity|].
+      split; [intros _ X; discriminate X | intros _; reflexivity].
+  Qed.
+
+  (* the files of the other slots / of no slot are not touched by file_post j *)
+  Lemma file_post_other o c pos s j j' n' :
+    plain o -> co_fix o = true ->
+    (forall f idx b, slot_of c pos j = SFile f idx b -> fl_damaged (get_fl (r_flags s) (j, cf_name f)) = false /\ (j', n') <> (j, cf_name f)) ->
+    fs_find (r_fs (file_post o c pos s j)) j' n' = fs_find (r_fs s) j' n'
+    /\ fl_fixed (get_fl (r_flags (file_post o c pos s j)) (j', n')) = fl_fixed (get_fl (r_flags s) (j', n')).
+  Proof.
+    intros Hp Hfix H. pose proof (slot_of_nth c pos j) as Hs.
+    destruct (nth j (c_disks c) None) as [d|] eqn:Hd; [|unfold file_post; rewrite Hd; auto].
+    destruct (slot_at d pos) as [|f idx b|h] eqn:Es; [unfold file_post; rewrite Hd, Es; auto | | unfold file_post; rewrite Hd, Es; auto].
+    destruct (H f idx b Hs) as [Hdam Hne].
+    destruct (file_post_fix_shape o c pos s j d f idx b Hp Hfix Hd Es Hdam) as [S1 S2]. cbn zeta in S1, S2.
+    destruct (Nat.eqb (S idx) (length (cf_blocks f))) eqn:El; [|rewrite (S1 eq_refl); auto].
+    destruct (S2 eq_refl) as [Ef [Efs _]]. rewrite Ef. split.
+    - destruct Efs as [E|[_ [g [_ E]]]]; rewrite E; [reflexivity|]. apply fs_find_put_other. exact Hne.
+    - rewrite get_set_other by exact Hne. reflexivity.
+  Qed.
+
+  Lemma file_post_at o c pos s j f idx b :
+    plain o -> co_fix o = true -> slot_of c pos j = SFile f idx b -> fl_damaged (get_fl (r_flags s) (j, cf_name f)) = false ->
+    fl_fixed (get_fl (r_flags (file_post o c pos s j)) (j, cf_name f)) = fl_fixed (get_fl (r_flags s) (j, cf_name f))
+    /\ fl_damaged (get_fl (r_flags (file_post o c pos s j)) (j, cf_name f)) = false
+    /\ (fl_fixed (get_fl (r_flags s) (j, cf_name f)) = false -> fs_find (r_fs (file_post o c pos s j)) j (cf_name f) = fs_find (r_fs s) j (cf_name f))
+    /\ (uniq_stamp c j f -> S idx = length (cf_blocks f) -> fl_fixed (get_fl (r_flags s) (j, cf_name f)) = true ->
+        forall g, fs_find (r_fs s) j (cf_name f) = Some g -> fs_find (r_fs (file_post o c pos s j)) j (cf_name f) = Some (restamp f g)).
+  Proof.
+    intros Hp Hfix Hs Hdam. rewrite slot_of_nth in Hs. destruct (nth j (c_disks c) None) as [d|] eqn:Hd; [|discriminate].
+    destruct (file_post_fix_shape o c pos s j d f idx b Hp Hfix Hd Hs Hdam) as [S1 S2]. cbn zeta in S1, S2.
+    destruct (Nat.eqb (S idx) (length (cf_blocks f))) eqn:El.
+    - destruct (S2 eq_refl) as [Ef [_ [Eu Enf]]]. rewrite Ef, get_set_same. split; [reflexivity|]. split; [exact Hdam|]. split.
+      + intro X. rewrite (Enf X). reflexivity.
+      + intros Hu _ Hfx g Hg. rewrite (Eu Hu Hfx g Hg).
+        assert (Hj : j < length (r_fs s)).
+        { unfold fs_find in Hg. destruct (Nat.lt_ge_cases j (length (r_fs s))) as [H|H]; [exact H|]. rewrite (nth_overflow (r_fs s) None H) in Hg. discriminate. }
+        apply (fs_find_put_same (r_fs s) j (restamp f g) Hj).
+    - rewrite (S1 eq_refl). split; [reflexivity|]. split; [exact Hdam|]. split; [reflexivity|].
+      intros _ X. apply Nat.eqb_neq in El. congruence.
+  Qed.
+
+  (* the whole loop of file_post over the disks *)
+  Lemma fold_file_post_stamps o c pos : plain o -> co_fix o = true -> forall js st, NoDup js ->
+    (forall j f idx b, slot_of c pos j = SFile f idx b -> fl_damaged (get_fl (r_flags st) (j, cf_name f)) = false) ->
+    let s' := fold_left (file_post o c pos) js st in
+    (forall j' n', (forall j f idx b, In j js -> slot_of c pos j = SFile f idx b -> (j', n') <> (j, cf_name f)) ->
+                   fs_find (r_fs s') j' n' = fs_find (r_fs st) j' n' /\ fl_fixed (get_fl (r_flags s') (j', n')) = fl_fixed (get_fl (r_flags st) (j', n')))
+    /\ (forall j f idx b, In j js -> slot_of c pos j = SFile f idx b ->
+          fl_fixed (get_fl (r_flags s') (j, cf_name f)) = fl_fixed (get_fl (r_flags st) (j, cf_name f))
+          /\ (fl_fixed (get_fl (r_flags st) (j, cf_name f)) = false -> fs_find (r_fs s') j (cf_name f) = fs_find (r_fs st) j (cf_name f))
+          /\ (uniq_stamp c j f -> S idx = length (cf_blocks f) -> fl_fixed (get_fl (r_flags st) (j, cf_name f)) = true ->
+              forall g, fs_find (r_fs st) j (cf_name f) = Some g -> fs_find (r_fs s') j (cf_name f) = Some (restamp f g))).
+  Proof.
+    intros Hp Hfix. induction js as [|j0 t IH]; intros st Hnd Hd; cbn [fold_left].
+    - cbn zeta. split; [auto|]. intros j f idx b [].
+    - apply NoDup_cons_iff in Hnd. destruct Hnd as [Hnin Hnd].
+      assert (P : post_ok st (file_post o c pos st j0)) by (apply file_post_fix; auto; intros; eapply Hd; eauto).
+      assert (Hd1 : forall j f idx b, slot_of c pos j = SFile f idx b -> fl_damaged (get_fl (r_flags (file_post o c pos st j0)) (j, cf_name f)) = false).
+      { intros j f idx b Hs. rewrite (po_dam _ _ P). eapply Hd. exact Hs. }
+      destruct (IH (file_post o c pos st j0) Hnd Hd1) as [A B]. cbn zeta in A, B. cbn zeta. split.
+      + intros j' n' Hne.
+        destruct (A j' n' (fun j f idx b Hin Hs => Hne j f idx b (or_intror Hin) Hs)) as [A1 A2].
+        destruct (file_post_other o c pos st j0 j' n' Hp Hfix) as [O1 O2].
+        { intros f idx b Hs. split; [eapply Hd; exact Hs | apply (Hne j0 f idx b (or_introl eq_refl) Hs)]. }
+        split; congruence.
+      + intros j f idx b [E|Hin] Hs.
+        * subst j0.
+          destruct (file_post_at o c pos st j f idx b Hp Hfix Hs (Hd j f idx b Hs)) as [T1 [T2 [T3 T4]]].
+          destruct (A j (cf_name f)) as [A1 A2].
+          { intros j2 f2 i2 b2 Hin2 Hs2 X. injection X as X1 X2. subst j2. contradiction. }
+          split; [congruence|]. split; [intro X; rewrite A1; apply T3; exact X|].
+          intros Hu Hl Hfx g Hg. rewrite A1. apply (T4 Hu Hl Hfx g Hg).
+        * destruct (B j f idx b Hin Hs) as [B1 [B2 B3]].
+          assert (Hjne : j <> j0) by (intro X; subst j0; contradiction).
+          destruct (file_post_other o c pos st j0 j (cf_name f) Hp Hfix) as [O1 O2].
+          { intros f0 i0 b0 Hs0. split; [eapply Hd; exact Hs0 | intro X; injection X as X1 X2; contradiction]. }
+          split; [congruence|]. split; [intro X; rewrite B2; [exact O1 | congruence]|].
+          intros Hu Hl Hfx g Hg. apply (B3 Hu Hl); [congruence | rewrite O1; exact Hg].
+  Qed.
+
+  (* the write-back: FIXED is set on the files written, no other flag of another file moves *)
+  Lemma wfold_flags o pos buf : plain o -> forall es s,
+    (forall x, In x es -> exists g, fs_find (r_fs s) (fst (we_key x)) (snd (we_key x)) = Some g) ->
+    NoDup (map we_j es) ->
+    let s' := fold_left (wstep o pos buf) (map we_ent es) s in
+    (forall x, In x es -> fl_fixed (get_fl (r_flags s') (we_key x)) = true)
+    /\ (forall k, (forall x, In x es -> k <> we_key x) -> get_fl (r_flags s') k = get_fl (r_flags s) k).
+  Proof.
+    intro Hp. induction es as [|x t IH]; intros s Hpres Hnd; cbn [map fold_left].
+    - cbn zeta. split; [intros x [] | auto].
+    - destruct x as [[[j f] idx] b]. cbn [we_ent].
+      apply NoDup_cons_iff in Hnd. destruct Hnd as [Hnin Hnd]. cbn [map we_j fst] in Hnin.
+      destruct (Hpres (j, f, idx, b) (or_introl eq_refl)) as [g Hg]. cbn in Hg.
+      assert (Hj : j < length (r_fs s)).
+      { unfold fs_find in Hg. destruct (Nat.lt_ge_cases j (length (r_fs s))) as [H|H]; [exact H|]. rewrite (nth_overflow (r_fs s) None H) in Hg. discriminate. }
+      destruct (wstep_spec o pos buf s j f idx b g Hp Hj Hg) as [_ [_ [_ [_ [_ [_ [_ A8]]]]]]].
+      assert (Efl : r_flags (wstep o pos buf s (ent j f idx b true)) = set_fl (r_flags s) (j, cf_name f) (fl_set_fixed (get_fl (r_flags s) (j, cf_name f)))).
+      { unfold wstep, ent. cbn [fe_bad fe_file fe_idx fe_ood negb]. rewrite (plain_not_excl o j _ Hp), (pl_synced o Hp). cbn [orb andb]. rewrite Hg. reflexivity. }
+      set (s1 := wstep o pos buf s (ent j f idx b true)) in *.
+      assert (Hother : forall x, In x t -> we_key x <> (j, cf_name f)).
+      { intros [[[j2 f2] i2] b2] Hin X. cbn in X. injection X as X1 X2. apply Hnin. apply in_map_iff. exists (j2, f2, i2, b2). auto. }
+      destruct (IH s1) as [B1 B2]; [|exact Hnd|].
+      { intros x Hx. destruct (Hpres x (or_intror Hx)) as [g0 Hg0]. exists g0. rewrite A8; [exact Hg0|].
+        destruct (we_key x) eqn:Ek. cbn. rewrite <- Ek. apply Hother. exact Hx. }
+      cbn zeta in B1, B2. cbn zeta. split.
+      + intros x [E|Hin]; [|apply B1; exact Hin]. subst x. cbn [we_key].
+        rewrite B2; [rewrite Efl, get_set_same; reflexivity|]. intros x Hx X. apply (Hother x Hx). symmetry. exact X.
+      + intros k Hk. rewrite B2 by (intros x Hx; apply Hk; right; exact Hx). rewrite Efl. apply get_set_other.
+        apply (Hk (j, f, idx, b)). left. reflexivity.
+  Qed.
+
   Section Restore.
     Variable o : copts.
     Variable c : content.
@@ -1002,7 +1158,7 @@ Section Phases.
     Hypothesis Hfile : forall j f idx b, slot_of c pos j = SFile f idx b ->
          (0 < block_len bs (cf_size f) idx)%N
          /\ (forall g, fs_find (r_fs s) j (cf_name f) = Some g -> (ff_size g <= cf_size f)%N)
-         /\ (co_fix o = true \/ fl_missing (get_fl (r_flags s) (j, cf_name f)) = false).
+         /\ (co_fix o = true \/ fl_missing (get_fl (r_flags s) (j, cf_name f)) = false \/ fs_find (r_fs s) j (cf_name f) = None).
     (* v is the recorded vector of the stripe (C06: ParOK gives it), zero padded *)
     Hypothesis Henc : enc_ok hashf bs c pos v.
     Hypothesis Hpad : forall j f idx b, slot_of c pos j = SFile f idx b -> pad_ok padz bs (vnth v j) (block_len bs (cf_size f) idx) = true.
@@ -1277,7 +1433,7 @@ Section Phases.
       - cbn [r_fs s0]. rewrite Hl. exact Hlenfs.
       - intros j f idx b Es. split; [apply (Hlen0 j f idx b Es)|]. split.
         + intros g Hg. destruct (Ha j f idx b Es) as [g' [Hg' [_ [_ Hle]]]]. cbn [r_fs s0] in Hg. rewrite Hg' in Hg. injection Hg as Hg. subst g'. exact Hle.
-        + right. reflexivity.
+        + right. left. reflexivity.
       - intro j. unfold is_bad. destruct (slot_of c pos j) as [|f idx b|h] eqn:Es; try reflexivity.
         rewrite (Hrd j f idx b Es). unfold hash_ok.
         assert (Hj : j < n) by (destruct (Nat.lt_ge_cases j n) as [H|H]; [exact H | rewrite slot_of_out in Es by exact H; discriminate]).
@@ -1290,4 +1446,256 @@ Section Phases.
       - cbn in *. auto.
     Qed.
   End Restore.
+  (* ---- the tags of repair are never "located error" tags ------------------------------------------------------------- *)
+  Definition aux_tag (t : tag) : Prop := fst t = K_PAR_TRY \/ fst t = K_HASH_UNKNOWN.
+  Definition status_tag (t : tag) : Prop := fst t = K_ST_UNREC \/ fst t = K_ST_RECOVERABLE \/ fst t = K_ST_DAMAGED.
+
+  Lemma try_combos_tags pos wh F fm rec : forall cs buf jn err tags,
+    exists ext, snd (try_combos hashf padz bs pos wh F fm rec cs buf jn err tags) = tags ++ ext /\ Forall aux_tag ext.
+  Proof.
+    induction cs as [|ip rest IH]; intros buf jn err tags; cbn [try_combos].
+    - exists []. rewrite app_nil_r. split; [reflexivity | constructor].
+    - destruct (existsb _ ip); [apply IH|].
+      destruct (reconstruct _ F _ buf jn) as [buf' jn'].
+      match goal with |- context [if ?b then (true, _, _, _, _) else _] => destruct b end.
+      + exists []. rewrite app_nil_r. split; [reflexivity | constructor].
+      + match goal with |- context [try_combos _ _ _ _ _ _ _ _ _ _ _ _ (tags ++ [?t])] =>
+          destruct (IH buf' jn' (S err) (tags ++ [t])) as [ext [E Hf]]; exists (t :: ext) end.
+        split; [rewrite E, <- app_assoc; reflexivity|]. constructor; [left; reflexivity | exact Hf].
+  Qed.
+
+  Lemma repair_step_tags pos fm rec buf jn : Forall aux_tag (snd (repair_step hashf padz bs nlev pos fm rec buf jn)).
+  Proof.
+    unfold repair_step. destruct (Nat.eqb (length fm) 0); [constructor|].
+    destruct (negb _); [constructor|].
+    match goal with |- context [try_combos ?h ?p ?b ?ps ?wh ?F ?fm ?rec ?cs ?buf ?jn 0 []] =>
+      destruct (try_combos_tags ps wh F fm rec cs buf jn 0 []) as [ext [E Hf]];
+      destruct (try_combos h p b ps wh F fm rec cs buf jn 0 []) as [[[[ok buf'] jn'] err] tags] end.
+    cbn [snd] in E. cbn [app] in E. subst tags. destruct ok; cbn [snd]; exact Hf.
+  Qed.
+
+  Lemma chg_heuristic_tags pos buf e : Forall aux_tag (snd (chg_heuristic hashf padz bs reduced pos buf e)).
+  Proof.
+    unfold chg_heuristic. destruct (fe_bad e && fe_is SChg e); [|constructor].
+    destruct (h_is_invalid reduced (fe_hash e)); [constructor; [right; reflexivity | constructor]|].
+    destruct (h_is_zero reduced (fe_hash e)).
+    - destruct (N.eqb _ 0); [constructor; [right; reflexivity | constructor] | constructor].
+    - destruct (blockcmp _ _ _ _ _ _); [constructor; [right; reflexivity | constructor] | constructor].
+  Qed.
+
+  Lemma Forall_flat_map {A B} (P : B -> Prop) (f : A -> list B) l : (forall a, Forall P (f a)) -> Forall P (flat_map f l).
+  Proof. intro H. induction l as [|x t IH]; [constructor|]. cbn. apply Forall_app. split; [apply H | exact IH]. Qed.
+
+  Lemma repair_tags pos nosearch fs0 failed rec buf jn :
+    Forall aux_tag (snd (repair hashf padz bs nlev reduced pos nosearch fs0 failed rec buf jn)).
+  Proof.
+    unfold repair. destruct failed as [|e0 ft]; [constructor|].
+    match goal with |- context [fold_left ?g (e0 :: ft) ([], buf)] => destruct (fold_left g (e0 :: ft) ([], buf)) as [fm1 buf1] end.
+    destruct fm1 as [|e1 fm1]; [constructor|].
+    pose proof (repair_step_tags pos (e1 :: fm1) rec buf1 jn) as T1.
+    destruct (repair_step hashf padz bs nlev pos (e1 :: fm1) rec buf1 jn) as [[[r1 buf2] jn2] tags1]. cbn [snd] in T1.
+    assert (Hrest : forall r1', r1' <> ROk ->
+       Forall aux_tag (snd (
+          let err1 := match r1' with RErr n => n | _ => O end in
+          let step := fun (acc : list fent * list fent * list bid * bool * bool) e =>
+            let '(fl, fm, b, torec, unsync) := acc in
+            match fe_state e with
+            | Some SBlk => if fe_bad e then (fl ++ [e], fm ++ [e], b, true, unsync) else (fl ++ [e], fm, b, torec, unsync)
+            | _ => let e' := fe_set_ood e in
+                   if fe_is SChg e && h_is_zero reduced (fe_hash e) then (fl ++ [e'], fm, set_buf b (fe_idx e) 0%N, torec, true)
+                   else (fl ++ [e'], fm ++ [e'], b, torec, true)
+            end in
+          let '(failed2, fm2, buf3, torec, unsync) := fold_left step (e0 :: ft) ([], [], buf2, false, false) in
+          if torec && unsync then
+            let '(r2, buf4, jn4, tags2) := repair_step hashf padz bs nlev pos fm2 rec buf3 jn2 in
+            match r2 with
+            | ROk => let t := flat_map (fun e => if fe_bad e && (fe_is SChg e || fe_is SRep e)
+                                                 then [(K_HASH_UNKNOWN, [N.of_nat pos; N.of_nat (fe_idx e); 4%N])] else []) failed2 in
+                     (ROk, failed2, buf4, jn4, tags1 ++ tags2 ++ t)
+            | _ => let err2 := match r2 with RErr n => n | _ => O end in
+                   (match (err1 + err2)%nat with O => RNone | S k => RErr (S k) end, failed2, buf4, jn4, tags1 ++ tags2)
+            end
+          else (match err1 with O => RNone | S k => RErr (S k) end, failed2, buf3, jn2, tags1)))).
+    { intros r1' _. cbv zeta.
+      match goal with |- context [fold_left ?g (e0 :: ft) ?i] => destruct (fold_left g (e0 :: ft) i) as [[[[failed2 fm2] buf3] torec] unsync] end.
+      destruct (torec && unsync); [|exact T1].
+      pose proof (repair_step_tags pos fm2 rec buf3 jn2) as T2.
+      destruct (repair_step hashf padz bs nlev pos fm2 rec buf3 jn2) as [[[r2 buf4] jn4] tags2]. cbn [snd] in T2.
+      destruct r2; cbn [snd]; repeat (apply Forall_app; split); auto.
+      apply Forall_flat_map. intro e. destruct (fe_bad e && _); [constructor; [right; reflexivity | constructor] | constructor]. }
+    destruct r1.
+    - cbn [snd]. apply Forall_app. split; [exact T1|]. rewrite flat_map_concat_map, map_map, <- flat_map_concat_map.
+      apply Forall_flat_map. intro e. apply chg_heuristic_tags.
+    - apply (Hrest (RErr n)). discriminate.
+    - apply (Hrest RNone). discriminate.
+  Qed.
+
+  (* the files are only tagged by file_post when checking *)
+  Record pchk (s s' : rstate) : Prop := {
+    pc_fs : r_fs s' = r_fs s; pc_par : r_par s' = r_par s; pc_err : r_err s' = r_err s; pc_unrec : r_unrec s' = r_unrec s;
+    pc_flags : r_flags s' = r_flags s;
+    pc_tags : exists t, r_tags s' = r_tags s ++ t /\ Forall status_tag t }.
+  Lemma pchk_refl s : pchk s s.
+  Proof. constructor; auto. exists []. rewrite app_nil_r. split; [reflexivity | constructor]. Qed.
+  Lemma pchk_trans a b d : pchk a b -> pchk b d -> pchk a d.
+  Proof.
+    intros [A1 A2 A3 A4 A5 [t1 [A6 A7]]] [B1 B2 B3 B4 B5 [t2 [B6 B7]]]. constructor; try congruence.
+    exists (t1 ++ t2). split; [rewrite B6, A6, app_assoc; reflexivity | apply Forall_app; split; assumption].
+  Qed.
+  Lemma file_post_pchk o c pos s j : co_fix o = false -> pchk s (file_post o c pos s j).
+  Proof.
+    intro Hc. unfold file_post. destruct (nth j (c_disks c) None) as [d|]; [|apply pchk_refl].
+    destruct (slot_at d pos) as [|f idx b|h]; try apply pchk_refl.
+    destruct (negb (Nat.eqb (S idx) (length (cf_blocks f)))); [apply pchk_refl|].
+    destruct (is_excl o j (cf_name f) || _); [apply pchk_refl|]. rewrite Hc.
+    destruct (fl_damaged _).
+    - constructor; cbn; auto. eexists. split; [reflexivity|]. constructor; [|constructor].
+      destruct (co_audit o); [right; right; reflexivity | left; reflexivity].
+    - destruct (fl_fixed _); [|apply pchk_refl].
+      constructor; cbn; auto. eexists. split; [reflexivity|]. constructor; [right; left; reflexivity | constructor].
+  Qed.
+  Lemma fold_file_post_pchk o c pos : co_fix o = false -> forall js s, pchk s (fold_left (file_post o c pos) js s).
+  Proof.
+    intro Hc. induction js as [|j t IH]; intro s; [apply pchk_refl|]. cbn [fold_left].
+    eapply pchk_trans; [apply file_post_pchk; exact Hc | apply IH].
+  Qed.
+
+  Lemma fold_fixed_only (l : list (nat * cfile * nat)) : forall s,
+    let s' := fold_left (fun s x => let '(j, f, i) := x in rs_flag s (j, cf_name f) fl_set_fixed) l s in
+    r_fs s' = r_fs s /\ r_par s' = r_par s /\ r_err s' = r_err s /\ r_unrec s' = r_unrec s /\ r_tags s' = r_tags s
+    /\ keeps_damaged s s'.
+  Proof.
+    induction l as [|[[j f] i] t IH]; intro s; cbn [fold_left]; [unfold keeps_damaged; auto 10|].
+    destruct (IH (rs_flag s (j, cf_name f) fl_set_fixed)) as [A [B [C [D [E F]]]]]. cbn zeta in *.
+    rewrite A, B, C, D, E. do 5 (split; [reflexivity|]).
+    intro k. rewrite (F k). unfold rs_flag, rs_setfl. cbn [r_flags].
+    destruct (fkey_eqb (j, cf_name f) k) eqn:E0.
+    - apply fkey_eqb_eq in E0. subst k. rewrite get_set_same. reflexivity.
+    - rewrite get_set_other; [reflexivity|]. intro X. subst k. rewrite fkey_eqb_refl in E0. discriminate.
+  Qed.
+
+  (* ---- check locates: the whole step on a damaged (recoverable) stripe, check mode ------------------------------------- *)
+  Section Locate.
+    Variable o : copts.
+    Variable c : content.
+    Variable fs0 : list (option fsdisk).
+    Variable pos : nat.
+    Variable s : rstate.
+    Variable v : list bid.
+    Hypothesis Hplain : plain o.
+    Hypothesis Hcheck : co_fix o = false.
+    Hypothesis Hsync : stripe_synced c pos.
+    Hypothesis Hlenfs : length (r_fs s) = length (c_disks c).
+    Hypothesis Hfile : forall j f idx b, slot_of c pos j = SFile f idx b ->
+         (0 < block_len bs (cf_size f) idx)%N
+         /\ (forall g, fs_find (r_fs s) j (cf_name f) = Some g -> (ff_size g <= cf_size f)%N)
+         /\ (co_fix o = true \/ fl_missing (get_fl (r_flags s) (j, cf_name f)) = false \/ fs_find (r_fs s) j (cf_name f) = None).
+    Hypothesis Henc : enc_ok hashf bs c pos v.
+    Hypothesis Hpad : forall j f idx b, slot_of c pos j = SFile f idx b -> pad_ok padz bs (vnth v j) (block_len bs (cf_size f) idx) = true.
+    Hypothesis CFdata : forall j f idx b y, slot_of c pos j = SFile f idx b -> read_block bs s j f idx = Some y ->
+                                          hash_ok f idx b y = true -> y = vnth v j.
+    Let n := length (c_disks c).
+    Let rec := map (prow (r_par s) pos) (seq 0 nlev).
+    Let failed := flat_map (fent_of c pos s) (seq 0 n).
+    Hypothesis CFj : cf_junk hashf padz bs failed.
+    Hypothesis CFr : cf_rec hashf padz bs failed rec v.
+    Hypothesis CFs : cf_search hashf bs (co_nosearch o) fs0 failed v.
+    Hypothesis Hcount : length (filter (is_bad c pos s) (seq 0 n)) <= length (filter (good_level v rec) (seq 0 nlev)).
+
+    Lemma par_matches_veq' x y p : veq x y = true -> par_matches x p = par_matches y p.
+    Proof.
+      intro H. destruct p as [w|t|]; cbn; try reflexivity.
+      destruct (veq x w) eqn:E1, (veq y w) eqn:E2; try reflexivity.
+      - rewrite (veq_trans y x w (veq_sym _ _ H) E1) in E2. discriminate.
+      - rewrite (veq_trans x y w H E2) in E1. discriminate.
+    Qed.
+
+    Theorem check_step_full :
+      let s' := stripe_step hashf padz truncf bs nlev reduced newino now o c fs0 s pos in
+      r_fs s' = r_fs s /\ r_par s' = r_par s /\ r_unrec s' = r_unrec s
+      /\ r_err s' = r_err s + length (filter (is_bad c pos s) (seq 0 n))
+                    + length (filter (fun l => is_pnone (prow (r_par s) pos l)) (seq 0 nlev))
+                    + length (filter (wrong_level rec v) (seq 0 nlev))
+      /\ keeps_damaged s s'
+      /\ exists rtags ptags,
+           r_tags s' = r_tags s ++ flat_map (tag_of o c pos s) (seq 0 n)
+                       ++ map (fun l => tg K_PAR_READ [pos; l] []) (filter (fun l => is_pnone (prow (r_par s) pos l)) (seq 0 nlev))
+                       ++ rtags
+                       ++ map (fun l => tg K_PAR_DATA [pos; l] []) (filter (wrong_level rec v) (seq 0 nlev))
+                       ++ ptags
+           /\ Forall aux_tag rtags /\ Forall status_tag ptags.
+    Proof.
+      pose proof (data_phase_inv o c pos s Hplain Hsync Hlenfs Hfile) as I.
+      set (a := data_phase hashf bs newino now o c pos s) in *.
+      destruct I as [Ibuf Ifailed Ivalid Iused Icore Ierr Itags Ifs Iflags Ifsc].
+      fold n in Ibuf, Ifailed, Iused, Itags. fold failed in Ifailed.
+      destruct Icore as [Cpar [Cunrec [Crec [Cjn [Clen Cfl]]]]].
+      destruct Henc as [Hvlen Hvenc].
+      assert (Hbuflen : length (da_buf a) = n) by (rewrite Ibuf, map_length, seq_length; reflexivity).
+      assert (Hbufnth : forall j, j < n -> vnth (da_buf a) j = bufval c pos s j).
+      { intros j Hj. rewrite Ibuf. unfold vnth. apply nth_map_seq. exact Hj. }
+      (* the failed set *)
+      assert (Hfin : forall e, In e failed -> exists j, j < n /\ In e (fent_of c pos s j)).
+      { intros e He. unfold failed in He. apply in_flat_map in He. destruct He as [j [Hj He]]. apply in_seq in Hj. exists j. split; [lia | exact He]. }
+      assert (Hblk : blk_failed failed (da_buf a)).
+      { intros e He. destruct (Hfin e He) as [j [Hj Hej]].
+        destruct (fent_of_idx c pos s Hsync j e Hej) as [A [B [C [D _]]]]. repeat split; auto. rewrite A, Hbuflen. exact Hj. }
+      assert (Hhv : hv_ok hashf padz bs failed v).
+      { intros e He. destruct (Hfin e He) as [j [Hj Hej]].
+        destruct (fent_of_idx c pos s Hsync j e Hej) as [A [_ [_ [_ [f [idx [b [Es [Ee _]]]]]]]]]. subst e. cbn.
+        unfold blockcmp. specialize (Hvenc j ltac:(fold n; lia)). rewrite Es in Hvenc. cbn in Hvenc. unfold vnth. rewrite Hvenc, hval_eqb_refl. cbn.
+        apply (Hpad j f idx b Es). }
+      assert (Hidx : map fe_idx failed = filter (is_bad c pos s) (seq 0 n)) by (apply failed_idx_filter).
+      assert (Hag : agree_out (map fe_idx failed) v (da_buf a) = true).
+      { apply agree_out_spec. intros i Hi. rewrite Hidx in Hi.
+        destruct (Nat.lt_ge_cases i n) as [Hin|Hin].
+        - assert (Eb : is_bad c pos s i = false).
+          { destruct (is_bad c pos s i) eqn:E; [|reflexivity]. exfalso. apply Hi. apply filter_In. split; [apply in_seq; lia | exact E]. }
+          rewrite Hbufnth by exact Hin. unfold bufval. unfold is_bad in Eb. specialize (Hvenc i ltac:(fold n; lia)).
+          destruct (slot_of c pos i) as [|f idx b|h] eqn:Es.
+          + cbn in Hvenc. exact Hvenc.
+          + destruct (read_block bs s i f idx) as [y|] eqn:Er; [|discriminate].
+            symmetry. apply (CFdata i f idx b y Es Er). destruct (hash_ok f idx b y); [reflexivity | discriminate].
+          + destruct Hsync as [Hs _]. specialize (Hs i). rewrite Es in Hs. contradiction.
+        - rewrite !vnth_out by lia. reflexivity. }
+      assert (Hcnt : length failed <= length (filter (good_level v rec) (seq 0 nlev))).
+      { rewrite <- (map_length fe_idx), Hidx. exact Hcount. }
+      (* the parity read *)
+      pose proof (parity_phase_spec o pos (da_st a) (pl_popen o Hplain)) as Epp. rewrite Cpar in Epp. fold rec in Epp.
+      (* repair *)
+      destruct (repair_restores hashf padz bs nlev reduced pos (co_nosearch o) fs0 failed rec v (da_buf a)
+                  (r_jn (da_st a)) Hblk Hhv CFj CFr CFs Hag Hcnt) as [buf' [jn' [rtags [Erep [Hfl1 Hfl2]]]]].
+      cbn zeta.
+      erewrite (stripe_step_ok o c fs0 pos s rec _ failed buf' jn' rtags); [| exact (pl_audit o Hplain) | fold a; exact Epp | fold a; rewrite Ifailed; cbn [r_jn]; exact Erep].
+      fold a. rewrite Iused, Ivalid.
+      assert (Eu : existsb (fun j => slot_has_file (slot_of c pos j)) (seq 0 n) = true).
+      { destruct Hsync as [_ [j Hj]]. apply existsb_exists. exists j. split; [|exact Hj].
+        apply in_seq. destruct (Nat.lt_ge_cases j n) as [H|H]; [lia|]. rewrite slot_of_out in Hj by exact H. discriminate. }
+      rewrite Eu. unfold ok_body. cbn [andb].
+      assert (Epart : filter (fun e => fe_bad e && fe_ood e) failed = []).
+      { apply filter_nil. intros e He. destruct (Hblk e He) as [_ [Ho _]]. rewrite Ho. apply andb_false_r. }
+      rewrite Epart. cbn [fold_left]. rewrite Hcheck. rewrite compare_phase_spec.
+      pose proof (repair_tags pos (co_nosearch o) fs0 failed rec (da_buf a) (r_jn (da_st a))) as Hrt. rewrite Erep in Hrt. cbn [snd] in Hrt.
+      assert (Hfull : forall j, j < n -> vnth buf' j = vnth v j) by (intros j Hj; apply Hfl2; rewrite Hbuflen; exact Hj).
+      assert (Hveq : veq v buf' = true).
+      { apply veq_spec. intro i. destruct (Nat.lt_ge_cases i n) as [H|H]; [symmetry; apply Hfull; exact H|].
+        rewrite !vnth_out; [reflexivity | destruct Hfl1; lia | lia]. }
+      assert (Ewl : filter (wrong_level rec buf') (seq 0 nlev) = filter (wrong_level rec v) (seq 0 nlev)).
+      { apply filter_ext. intro l. unfold wrong_level. rewrite (par_matches_veq' v buf' _ Hveq). reflexivity. }
+      rewrite Ewl.
+      match goal with |- context [fold_left _ (bad_files failed) ?st] => set (s5 := st) end.
+      destruct (fold_fixed_only (bad_files failed) s5) as [X1 [X2 [X3 [X4 [X5 X6]]]]]. cbn zeta in X1, X2, X3, X4, X5, X6.
+      set (s6 := fold_left (fun s x => let '(j, f, i) := x in rs_flag s (j, cf_name f) fl_set_fixed) (bad_files failed) s5) in *.
+      destruct (fold_file_post_pchk o c pos Hcheck (seq 0 (length (c_disks c))) s6) as [Q1 Q2 Q3 Q4 Q5 [ptags [Q6 Q7]]].
+      set (s8 := fold_left (file_post o c pos) (seq 0 (length (c_disks c))) s6) in *.
+      assert (Elen : length failed = length (filter (is_bad c pos s) (seq 0 n))) by (rewrite <- (map_length fe_idx), Hidx; reflexivity).
+      split; [rewrite Q1, X1; unfold s5; cbn [r_fs]; apply Ifsc; exact Hcheck|].
+      split; [rewrite Q2, X2; unfold s5; cbn [r_par]; reflexivity|].
+      split; [rewrite Q4, X4; unfold s5; cbn [r_unrec]; exact Cunrec|].
+      split; [rewrite Q3, X3; unfold s5; cbn [r_err rs_tag rs_setjn]; rewrite Ierr, Ifailed; fold n; fold failed; rewrite Elen, ?map_length; lia|].
+      split; [intro k; rewrite Q5, (X6 k); unfold s5; cbn [r_flags rs_tag rs_setjn]; apply Cfl|].
+      exists rtags, ptags. split; [|split; [exact Hrt | exact Q7]].
+      rewrite Q6, X5. unfold s5. cbn [r_tags rs_tag rs_setjn]. rewrite Itags. fold n. rewrite <- !app_assoc. reflexivity.
+    Qed.
+  End Locate.
 End Phases.
